@@ -21,8 +21,7 @@ ASSUMPTIONS = [
 
 
 def ext_is_future(ex, state, args, kwargs, sv):
-    a = args[0]
-    return VBool(isinstance(a, VSym) and a.shape == "Fut")
+    return VBool(simp(disj([g for g, a in alts_of(args[0]) if isinstance(a, VSym) and a.shape == "Fut"])))
 
 
 def _fut_arr(ex, state, field, typ):
@@ -30,9 +29,17 @@ def _fut_arr(ex, state, field, typ):
 
 
 def _need_fut(ex, state, a):
-    if not isinstance(a, VSym):
-        ex.raise_if(state, z3.BoolVal(True), "AttributeError")      # None / foreign object where a future is expected
-    return a
+    """the future argument: alternatives that are not futures (None, foreign objects) raise AttributeError"""
+    fut = None
+    for g, alt in alts_of(a):
+        if isinstance(alt, VSym) and alt.shape == "Fut":
+            fut = alt if fut is None else VSym("Fut", z3.If(g, alt.t, fut.t))
+        else:
+            ex.raise_if(state, g, "AttributeError")
+    if fut is None:
+        from pyvc.executor import _Abort
+        raise _Abort()
+    return fut
 
 
 def ext_is_called(ex, state, args, kwargs, sv):
@@ -154,3 +161,40 @@ def build_shapes(reg):
         "_subscriptions": "dict:int->seq:sym:Subscription", "_registrations": "dict:int->sym:Registration",
         "_payload_codec": "any", "_realm": "any", "_parent": "any",
     })
+
+
+MESSAGE_CLASSES = ["Hello", "Welcome", "Abort", "Challenge", "Authenticate", "Goodbye", "Error", "Publish", "Published",
+                   "Subscribe", "Subscribed", "Unsubscribe", "Unsubscribed", "Event", "EventReceived", "Call", "Cancel",
+                   "Result", "Register", "Registered", "Unregister", "Unregistered", "Invocation", "Interrupt", "Yield"]
+
+
+def install_message_models(reg):
+    """message constructors as record constructors: the new object has the class and the given fields (positional
+    arguments named by the real signature).  The constructors' own argument assertions belong to C03/C08."""
+    from pyvc import models, loader
+    from pyvc.values import VClass
+
+    def mk(cname):
+        def model(ex, state, args, kwargs):
+            ci = loader.get_class("autobahn.wamp.message", cname)
+            c, m = ci.find_method("__init__")
+            names = [a.arg for a in m.args.args][1:]
+            o = HObj("inst", VClass(cname, ci))
+            for n, v in zip(names, args):
+                o.fields[n] = v
+            for k, v in kwargs.items():
+                if k != "**":
+                    o.fields[k] = v
+            # parameters not given keep their declared defaults when those are literals
+            defaults = m.args.defaults
+            for n, d in zip(names[len(names) - len(defaults):], defaults):
+                if n not in o.fields:
+                    try:
+                        import ast as _ast
+                        o.fields[n] = ex.const(_ast.literal_eval(d))
+                    except Exception:
+                        pass
+            return state.alloc(o)
+        return model
+    for cname in MESSAGE_CLASSES:
+        models.CLASS_MODELS[cname] = mk(cname)
